@@ -98,9 +98,9 @@ RT = [RU("cap_unit", depth=6), RU("cap_weight", weights=(0, 1, 2, 5), depth=5), 
       RS("cap2_tti", depth=7), RS("cap2_ttl_tti_w", weights=(1, 5), depth=6), RS("cap_const", weights=(1, 2), depth=6),
       RS("cap1", nkeys=3, depth=6)]
 VQ = [("unsync-small", 120, 40), ("unsync-mid", 30, 120), ("sync-small", 120, 40), ("sync-mid", 30, 120),
-      ("sync-eager", 40, 60)]
+      ("sync-eager", 40, 60), ("sync-far", 150, 16), ("sync-burst", 250, 3)]
 VT = [("unsync-small", 2000, 60), ("unsync-mid", 400, 400), ("sync-small", 2000, 60), ("sync-mid", 400, 400),
-      ("sync-eager", 600, 120)]
+      ("sync-eager", 600, 120), ("sync-far", 6000, 20), ("sync-burst", 7000, 4)]
 
 QSLICES = {
     "C01": ["cap2", "expiry2", "cap_const2", "s_cap1", "s_ttl_tti"],
@@ -108,13 +108,13 @@ QSLICES = {
     "C04": ["cap2", "cap_weight2", "cap_const2", "s_cap1", "s_cap2_w"],
     "C05": ["expiry2", "cap1_ttl", "cap1_ttl0", "s_cap1_ttl", "s_ttl_tti"],
     "C06": ["expiry2", "cap2_tti", "s_cap2_tti", "s_ttl_tti"],
-    "C07": ["cap2k2", "expiry2", "cap_weight2", "s_cap1", "s_ttl_tti"],
+    "C07": ["cap2k2", "expiry2", "s_cap1", "s_ttl_tti"],
     "C10": ["cap2", "cap_weight2", "cap1_ttl", "s_cap1", "s_cap2_w", "s_cap1_ttl"],
     "C11": ["cap2", "cap1_ttl", "s_cap1", "s_cap1_ttl"],
-    "C12": ["cap2", "cap_weight2", "cap2_tti"],
-    "C13": ["cap2", "cap_weight2", "cap_const2"],
+    "C12": ["cap2", "cap_weight2", "cap2_tti", "s_cap1", "s_cap2_w"],
+    "C13": ["cap2", "cap_weight2", "cap_const2", "s_cap1", "s_cap2_w"],
     "C16": ["cap2", "expiry2", "s_nocap", "s_ttl_tti"],
-    "C14": ["cap2", "cap_const2"],
+    "C14": ["cap2", "cap_const2", "s_cap1"],
     "C15": ["cap2", "expiry2", "cap2_tti", "s_cap1", "s_cap2_tti"],
     "C08": ["cap2", "cap_weight2", "cap1_ttl", "s_cap1", "s_cap2_w", "s_cap1_ttl"],
 }
@@ -217,6 +217,34 @@ def witness_of(ctx, events, upto):
         if f.get("status") != "open" or ctx.prop not in f.get("properties", []):
             continue
         tags = set(f.get("witness_tags", []))
+        if f.get("witness_scope") == "lost_key_rejected_or_evicted_after_witness":
+            # the finding explains the loss of a key only if, inside one maintenance run, the
+            # witness event came first and that key was then rejected or evicted
+            blamed = set()
+            for e in events[:upto + 1]:
+                mx = e.get("mx") or []
+                seen = False
+                for j, m in enumerate(mx):
+                    if m.get("t") in tags:
+                        seen = True
+                    elif m.get("t") in ("upsert.reject", "victim.rm", "evict"):
+                        # dead weight was still resident when this was decided: a stale node was met
+                        # before, or a dead entry is purged / a queued removal applied later in this run
+                        later = any(x.get("t") in ("expire.ao", "expire.wo", "remove") for x in mx[j + 1:])
+                        if seen or later:
+                            blamed.add(m.get("k"))
+            rej = events[upto]
+            key = None
+            if rej.get("ev") in ("Get", "Contains"):
+                key = rej.get("k")
+            elif rej.get("ev") == "Sync":
+                for e in reversed(events[:upto]):
+                    if e.get("ev") == "Insert":
+                        key = e.get("k")
+                        break
+            if blamed and (key is None or key in blamed):
+                return f
+            continue
         for e in events[:upto + 1]:
             for m in e.get("mx") or []:
                 if m.get("t") in tags:
@@ -926,6 +954,32 @@ def stage_burst(ctx, n):
     ctx.traces_ok += st["behaviours"] - len(bad)
     with open(trace) as f:
         ctx.samples.append({"kind": "un-synced burst", "events": [json.loads(l) for l in f.readlines()[:4]]})
+    if ctx.prop == "C04":
+        # the exact overshoot: four inserting threads under the controller, the thread that runs
+        # maintenance starved until the write channel is full; the map is counted at every step
+        name = "cs_overshoot"
+        beh = os.path.join(ctx.wd, name + ".beh.ndjson")
+        with open(beh, "w") as f:
+            for i in range(2 if ctx.tier == "quick" else 12):
+                progs = [[{"op": "Insert", "k": t * 300 + j + 1, "v": (t + 1) * 100000 + j, "w": 1} for j in range(300)]
+                         for t in range(4)]
+                f.write(json.dumps({"id": i, "cfg": {"kind": "sync", "cap": 5 + i, "ttl": -1, "tti": -1, "weigher": False,
+                                                     "hasher": "mix", "nkeys": 8, "lean": True},
+                                    "progs": progs, "sched": [], "seed": ctx.seed * 31 + i,
+                                    "policy": "starve_maint", "overshoot": True}) + "\n")
+        trace2 = os.path.join(ctx.wd, name + ".trace.ndjson")
+        hr = V.harness(["sched", beh, trace2], timeout=1800)
+        if hr.returncode not in (0, 3):
+            with open(trace2, "a") as f:
+                f.write(json.dumps({"ev": "Crash", "rc": hr.returncode}) + "\n")
+        st, viol, drift = conc_trace_check(ctx, name, trace2, [ctx.prop], threads=4)
+        ctx.events += st["events"]
+        ctx.nontrivial += st["nt"].get(ctx.prop, 0)
+        bad = conc_verdict(ctx, name, trace2, beh, viol)
+        ctx.traces_ok += st["behaviours"] - len(bad)
+        with open(trace2) as f:
+            ov = [json.loads(l) for l in f if '"Overshoot"' in l]
+        ctx.samples.append({"kind": "exact overshoot under the controller", "events": ov[:3]})
 
 
 def run_conc_property(ctx):
